@@ -106,9 +106,9 @@ Proof.
   intros s rs rs' p H Ht. destruct s; cbn in H, Ht.
   - inversion H; subst; cbn. unfold upd. rewrite Ht. reflexivity.
   - destruct (dir_ok _ _); inversion H; subst; cbn. unfold upd. rewrite Ht. reflexivity.
-  - inversion H; subst; cbn. destruct p as [k|o f]; [reflexivity|].
+  - inversion H; subst; cbn. destruct p as [k|o f|]; try reflexivity.
     destruct o as [| |k e']; try reflexivity. destruct f; try reflexivity. rewrite Ht. reflexivity.
-  - inversion H; subst; cbn. destruct p as [k|o f]; [reflexivity|].
+  - inversion H; subst; cbn. destruct p as [k|o f|]; try reflexivity.
     destruct o as [| |k e']; try reflexivity. destruct f; try reflexivity. rewrite Ht. reflexivity.
   - inversion H; subst; cbn. unfold upd. rewrite Ht. reflexivity.
   - destruct (present _ _); inversion H; subst; cbn. unfold upd. rewrite Ht. reflexivity.
@@ -887,7 +887,7 @@ Definition nodir_step (s : step) : bool :=
 Lemma nodir_step_dir : forall s k, nodir_step s = true -> touches s (PDir k) = false.
 Proof.
   intros s k H. destruct s; cbn in *; try reflexivity; try discriminate;
-    try (destruct p; [discriminate | reflexivity]).
+    try (destruct p; first [discriminate | reflexivity]).
 Qed.
 Lemma comp_steps_nodir : forall ow o, forallb nodir_step (comp_steps ow o) = true.
 Proof. destruct ow; reflexivity. Qed.
@@ -1138,12 +1138,13 @@ Proof.
       { intros k Hk. apply in_seq in Hk. rewrite F5. apply Hbins. lia. }
       exists rs6. split; [exact Hx|]. split; [exact Hc|]. split.
       + intros k Hk. apply Hko. apply in_seq. lia.
-      + intros q Hq. destruct q as [d|ow0 f0].
+      + intros q Hq. destruct q as [d|ow0 f0|].
         * apply Hf. intros; discriminate.
         * destruct (fkind_eqb f0 FMeta) eqn:Ef.
           -- apply fkind_eqb_eq in Ef. subst f0. eapply comp24_meta_frame. exact Hx.
           -- apply Hf. intros k e f _ Heq. inversion Heq; subst.
              rewrite (Hq k e f eq_refl) in Ef. discriminate.
+        * apply Hf. intros; discriminate.
     - exists rs5. cbn. split; [reflexivity|]. split; [reflexivity|]. split; [|reflexivity].
       intros k Hk. rewrite F5. apply Hbins. exact Hk. }
   destruct E6 as [rs6 [E6 [C6 [K6 F6]]]].
@@ -2041,3 +2042,84 @@ Proof.
   intros. destruct (history_inv kd n w h (init_fs c) (init_inv kd n c)) as [A [_ B]]. auto.
 Qed.
 
+
+(* ====================================================================== *)
+(* Metadata markers and NP2Reconstructor                                     *)
+(* ====================================================================== *)
+Lemma go_processed : forall plan crash fs st al, out_processed (go plan crash fs st al) = false.
+Proof.
+  intros. unfold go.
+  destruct (exec (match crash with Some c => firstn c plan | None => plan end) (mkR fs false)). reflexivity.
+Qed.
+
+Lemma orig_not_processed : forall fs t, (t = TBin \/ t = TCbin) -> marks_processed (marker_of fs t) = false.
+Proof. intros fs t [-> | ->]; cbn; destruct (complete fs PMark); reflexivity. Qed.
+
+(* already_processed is a function of the markers in the metadata of the file given *)
+Lemma processed_decision : forall kd n w fs r,
+  input_state kd n fs (r_target r) = Present ->
+  out_processed (run_once kd n w fs r) = marks_processed (marker_of fs (r_target r)).
+Proof.
+  intros kd n w fs r Hin. unfold run_once. rewrite Hin.
+  destruct (r_target r) eqn:Et; [| |reflexivity];
+    (rewrite orig_not_processed by auto);
+    (destruct kd; [|apply go_processed|reflexivity]);
+    (destruct (r_sub r) as [sub|]; [destruct (sub_ok sub n); [apply go_processed | reflexivity] | apply go_processed]).
+Qed.
+
+Lemma recon_ok_spec : forall n fs, recon_ok n fs = true ->
+  (1 <= n)%nat /\ (forall k, (k < n)%nat -> shank_src_ok fs k = true) /\
+  fs (PFile Orig FBin) = Absent /\ fs (PFile Orig FCbin) = Absent /\
+  (fs (PFile Orig FMeta) = Complete \/ fs (PFile Orig FMeta) = Absent).
+Proof.
+  intros n fs H. unfold recon_ok in H. repeat (apply andb_true_iff in H as [H ?]).
+  split; [apply Nat.leb_le; exact H|]. split.
+  - intros k Hk. rewrite forallb_forall in H3. apply H3. apply in_seq. lia.
+  - split; [apply present_false, negb_true_iff; assumption|].
+    split; [apply present_false, negb_true_iff; assumption|].
+    apply orb_true_iff in H0 as [A|A]; [left; apply complete_true; exact A |
+                                         right; apply present_false, negb_true_iff; exact A].
+Qed.
+
+Lemma recon_other : forall comp fs q,
+  (forall f, q <> PFile Orig f) -> q <> PMark -> recon comp fs q = fs q.
+Proof.
+  intros comp fs q Hq Hm. unfold recon.
+  destruct (present fs (PFile Orig FMeta)); destruct comp; upd_simp; reflexivity.
+Qed.
+
+(* the reconstructed original is a valid input again, plain or compressed *)
+Lemma recon_input : forall n comp fs, recon_ok n fs = true ->
+  input_state NP24 n (recon comp fs) (if comp then TCbin else TBin) = Present.
+Proof.
+  intros n comp fs H. destruct (recon_ok_spec _ _ H) as [_ [_ [Hb [Hc Hm]]]].
+  unfold input_state, recon.
+  destruct Hm as [Hm|Hm].
+  - rewrite (proj2 (present_true fs (PFile Orig FMeta))) by (rewrite Hm; discriminate).
+    destruct comp; unfold complete; upd_simp; rewrite Hm; cbn; upd_simp; reflexivity.
+  - rewrite (proj2 (present_false fs (PFile Orig FMeta)) Hm).
+    destruct comp; unfold complete; upd_simp; cbn; upd_simp; reflexivity.
+Qed.
+
+Lemma reconstructed_converts_again : forall n w' fs comp o,
+  recon_ok n fs = true ->
+  let fs1 := recon comp fs in
+  let t := if comp then TCbin else TBin in
+  let out := run_once NP24 n (S w') fs1 (mkRun t o true None None None) in
+  out_processed out = false /\ out_outcome out = Status 1 /\ out_checked out = o_post o /\
+  final24_ok n o (out_fs out) /\
+  out_fs out (PFile Orig (target_form t)) =
+    (if o_post o && o_del o then Absent else Complete).
+Proof.
+  intros n w' fs comp o H fs1 t out.
+  pose proof (recon_input n comp fs H) as Hin. fold fs1 in Hin. fold t in Hin.
+  assert (Ht : t = TBin \/ t = TCbin) by (subst t; destruct comp; auto).
+  destruct (forced24 n w' fs1 t o Ht Hin) as [A [B [C [D _]]]].
+  split.
+  - pose proof (processed_decision NP24 n (S w') fs1 (mkRun t o true None None None) Hin) as P.
+    cbn [r_target] in P. subst out. rewrite P. apply orig_not_processed. exact Ht.
+  - split; [exact A|]. split; [exact B|]. split; [exact C|].
+    fold out in D. rewrite D. destruct (o_post o && o_del o); [reflexivity|].
+    destruct (input_present_orig _ _ _ _ Hin) as [_ [HB HC]].
+    subst t. destruct comp; cbn; [apply HC; reflexivity | apply HB; reflexivity].
+Qed.
